@@ -1,6 +1,7 @@
 import ColoVerif.Model.CoresChecked
 import ColoVerif.Model.TetrisChecked
 import ColoVerif.Model.IncrNetChecked
+import ColoVerif.Model.DetPlaceChecked
 import Driver.Common
 /-
 Driver for C07: replays the harness' operation streams through the CHECKED models.
@@ -24,6 +25,12 @@ Driver for C07: replays the harness' operation streams through the CHECKED model
   inet <k> (<cell> <offset>)*            -> (nothing)   addNet
   ibuild <pos>*     -> ibuild <value>    build(pos)          (Builder.buildC)
   iupd <cell> <pos> -> iupd <value>      updateCellPos       (Model.updateCellPosC)
+  dnew / drow <minX> <maxX> <minY> <maxY> <orient> / dcell <w> <x> <y> <orient> <polarity>   -> (nothing)
+  dinit             -> dinit ok|throw:runtime_error     DetailedPlacement constructor (unbounded `construct`: the
+                       harness only hands over legal placements, whose constructor sums stay inside a row)
+  dcanswap a b / dcaninsert c r p       -> <op> 0|1|throw:runtime_error      (canSwapC / canInsertC)
+  dposswap a b / dposinsert c r p       -> <op> x1 y1 x2 y2 / <op> x y       (positionsOnSwapC / positionOnInsertC)
+  dswap a b / dinsert c r p             -> <op> ok (x row)* | <op> throw:runtime_error   (swapC / insertC)
 
 Outside an `xcase` a fault is printed in place as `fault <site>` (the in-domain streams
 must never show one).
@@ -40,6 +47,9 @@ structure DS where
   tcells : List LCell := []
   ib : IncrNet.Builder := IncrNet.Builder.new 0
   im : IncrNet.Model := default
+  drows : List Row := []
+  dcells : List (Int × Int × Int × Orient × Polarity) := []
+  ds : Option DetPlace.State := none
 
 def emit (d : DS) (st : State) (line : String) : DS × List String :=
   if d.inX then ({ d with st := st, held := line :: d.held }, []) else ({ d with st := st }, [line])
@@ -50,6 +60,48 @@ def fault (d : DS) (f : Fault) : DS × List String :=
 def pinPairs : List String → List (Nat × Int)
   | c :: o :: rest => ((int! c).toNat, int! o) :: pinPairs rest
   | _ => []
+
+def showDetBool (op : String) : Except DetPlace.Err Bool → String
+  | .ok true => op ++ " 1"
+  | .ok false => op ++ " 0"
+  | .error _ => op ++ " throw:runtime_error"
+
+def showDetState (op : String) (n : Nat) : Except DetPlace.Err DetPlace.State → String
+  | .ok s => op ++ " ok" ++ String.join ((DetPlace.State.intsUpTo n).map fun c => " " ++ toString (s.x c) ++ " " ++ toString (s.row c))
+  | .error _ => op ++ " throw:runtime_error"
+
+/-- the DetailedPlacement operations of stages P / Q -/
+def detOp (d : DS) (op : String) (a : List Int) : DS × List String :=
+  if d.faulted then (d, []) else
+  match d.ds with
+  | none => (d, ["no-state " ++ op])
+  | some s =>
+    match op, a with
+    | "dcanswap", [c1, c2] =>
+      match s.canSwapC d.asr c1 c2 with
+      | .ok r => emit d d.st (showDetBool op r)
+      | .error f => fault d f
+    | "dcaninsert", [c, r, p] =>
+      match s.canInsertC c r p with
+      | .ok r => emit d d.st (showDetBool op r)
+      | .error f => fault d f
+    | "dposswap", [c1, c2] =>
+      match s.positionsOnSwapC d.asr c1 c2 with
+      | .ok q => emit d d.st (op ++ " " ++ toString q.1.1 ++ " " ++ toString q.1.2 ++ " " ++ toString q.2.1 ++ " " ++ toString q.2.2)
+      | .error f => fault d f
+    | "dposinsert", [c, r, p] =>
+      match s.positionOnInsertC c r p with
+      | .ok q => emit d d.st (op ++ " " ++ toString q.1 ++ " " ++ toString q.2)
+      | .error f => fault d f
+    | "dswap", [c1, c2] =>
+      match s.swapC d.asr c1 c2 with
+      | .ok r => emit { d with ds := (r.toOption).orElse (fun _ => d.ds) } d.st (showDetState op s.nCells r)
+      | .error f => fault d f
+    | "dinsert", [c, r, p] =>
+      match s.insertC c r p with
+      | .ok r => emit { d with ds := (r.toOption).orElse (fun _ => d.ds) } d.st (showDetState op s.nCells r)
+      | .error f => fault d f
+    | _, _ => (d, ["bad-op " ++ op])
 
 def step (d : DS) : List String → DS × List String
   | ["variant", v] => ({ d with asr := v != "ndebug" }, [])
@@ -115,6 +167,21 @@ def step (d : DS) : List String → DS × List String
     match d.im.updateCellPosC (int! c).toNat (int! p) with
     | .ok m => emit { d with im := m } d.st ("iupd " ++ toString m.value)
     | .error f => fault d f
+  | ["dnew"] => ({ d with drows := [], dcells := [], ds := none }, [])
+  | ["drow", a, b, c, e, o] =>
+    ({ d with drows := d.drows ++ [⟨⟨int! a, int! b, int! c, int! e⟩, Orient.ofCode (int! o).toNat⟩] }, [])
+  | ["dcell", w, x, y, o, p] =>
+    ({ d with dcells := d.dcells ++ [(int! w, int! x, int! y, Orient.ofCode (int! o).toNat, Polarity.ofCode (int! p).toNat)] }, [])
+  | ["dinit"] =>
+    if d.faulted then (d, []) else
+    match DetPlace.construct d.drows d.dcells.length (DetPlace.ofList 0 (d.dcells.map (·.1)))
+        (DetPlace.ofList 0 (d.dcells.map (·.2.1))) (DetPlace.ofList 0 (d.dcells.map (·.2.2.1)))
+        (DetPlace.ofList default (d.dcells.map (·.2.2.2.1))) (DetPlace.ofList default (d.dcells.map (·.2.2.2.2)))
+        (fun i => i) with
+    | .ok s => emit { d with ds := some s } d.st "dinit ok"
+    | .error _ => emit { d with ds := none } d.st "dinit throw:runtime_error"
+  | [op, a, b] => detOp d op [int! a, int! b]
+  | [op, a, b, c] => detOp d op [int! a, int! b, int! c]
   | [] => (d, [])
   | ws => (d, ["bad-op " ++ " ".intercalate ws])
 
